@@ -100,6 +100,78 @@ fn math_int(b: &[u64], n: u32) -> Option<u128> {
     None
 }
 
+/// independent walk over an encoded field section (RFC 9204 4.5): for each field line whether its
+/// name is a pseudo-header; Err if anything but static-table / literal representations is used
+fn walk_section(b: &[u64]) -> Result<Vec<bool>, String> {
+    fn int(b: &[u64], pos: &mut usize, n: u32) -> Result<u64, String> {
+        let v = math_int(&b[*pos..], n).ok_or("truncated integer")?;
+        let mask = (1u64 << n) - 1;
+        if b[*pos] & mask == mask {
+            *pos += 1;
+            while b[*pos] & 0x80 != 0 {
+                *pos += 1;
+            }
+        }
+        *pos += 1;
+        u64::try_from(v).map_err(|_| "integer too large".to_string())
+    }
+    fn string(b: &[u64], pos: &mut usize, n: u32) -> Result<Vec<u8>, String> {
+        if *pos >= b.len() {
+            return Err("truncated string".into());
+        }
+        let h = b[*pos] >> n & 1 == 1;
+        let len = int(b, pos, n)? as usize;
+        if *pos + len > b.len() {
+            return Err(format!("string of {} bytes overruns the section", len));
+        }
+        let raw: Vec<u8> = b[*pos..*pos + len].iter().map(|x| *x as u8).collect();
+        *pos += len;
+        if h {
+            let mut dst = vec![];
+            httlib_huffman::decode(&raw, &mut dst, httlib_huffman::DecoderSpeed::OneBit).map_err(|_| "bad Huffman string".to_string())?;
+            Ok(dst)
+        } else {
+            Ok(raw)
+        }
+    }
+    let static_pseudo = |i: u64| i <= 1 || (15..=28).contains(&i) || (63..=71).contains(&i);
+    if b.len() < 2 || b[0] != 0 || b[1] != 0 {
+        return Err("section prefix is not 00 00 (required insert count 0, base 0)".into());
+    }
+    let mut pos = 2;
+    let mut flags = vec![];
+    while pos < b.len() {
+        let x = b[pos];
+        if x & 0x80 != 0 {
+            if x & 0x40 == 0 {
+                return Err("indexed field line refers to the dynamic table".into());
+            }
+            let i = int(b, &mut pos, 6)?;
+            if i > 98 {
+                return Err(format!("static index {} out of range", i));
+            }
+            flags.push(static_pseudo(i));
+        } else if x & 0x40 != 0 {
+            if x & 0x10 == 0 {
+                return Err("literal field line with a dynamic name reference".into());
+            }
+            let i = int(b, &mut pos, 4)?;
+            if i > 98 {
+                return Err(format!("static index {} out of range", i));
+            }
+            string(b, &mut pos, 7)?;
+            flags.push(static_pseudo(i));
+        } else if x & 0x20 != 0 {
+            let name = string(b, &mut pos, 3)?;
+            string(b, &mut pos, 7)?;
+            flags.push(name.first() == Some(&b':'));
+        } else {
+            return Err("post-base representation with a zero-capacity table".into());
+        }
+    }
+    Ok(flags)
+}
+
 pub fn oracle(f: u32, a: &Args, out: &Args) -> Option<(&'static str, String)> {
     match f {
         501 => {
@@ -128,10 +200,32 @@ pub fn oracle(f: u32, a: &Args, out: &Args) -> Option<(&'static str, String)> {
                 m.insert(k, v);
             }
             let expect = sorted_entries(&m);
-            if out[2..] != expect[..] {
-                return Some(("C14", format!("header map does not round-trip ({} fields)", m.len())));
-            }
-            None
+            let rt = if out[2..] != expect[..] { Some(format!("header map does not round-trip ({} fields)", m.len())) } else { None };
+            // C16: the emitted section, walked by an independent reader, uses only static/literal
+            // representations and puts pseudo-header fields first
+            let wf = match walk_section(&out[1]) {
+                Err(e) => Some(format!("emitted field section is not well-formed: {}", e)),
+                Ok(flags) => {
+                    let mut seen_regular = false;
+                    let mut bad = None;
+                    if flags.len() != m.len() {
+                        bad = Some(format!("emitted section has {} field lines for {} fields", flags.len(), m.len()));
+                    }
+                    for p in flags {
+                        if p && seen_regular && bad.is_none() {
+                            bad = Some("a pseudo-header field is emitted after a regular field".to_string());
+                        }
+                        seen_regular |= !p;
+                    }
+                    bad
+                }
+            };
+            return match (rt, wf) {
+                (Some(r), Some(w)) => Some(("C14+C02+C16", format!("{}; {}", r, w))),
+                (Some(r), None) => Some(("C14+C02", r)),
+                (None, Some(w)) => Some(("C16+C02", w)),
+                (None, None) => None,
+            };
         }
         504 => {
             // Huffman: decode(encode(s)) = s
